@@ -253,6 +253,35 @@ Fill(h) ==
   /\ regs' = [regs EXCEPT ![h].plen = regs[h].len]
   /\ res' = "Ok" /\ UNCHANGED <<allocs, released, budget>>
 
+(* ---- composite constructors of the object API (C19) -------------------------------------------- *)
+\* Result-returning constructors that build several locked fixed-length regions (key pairs, precomputed keys).
+\* The object is dropped right after the call, so the net effect is on allocations, releases and the budget:
+\* every lock request is reported through the Result - the first refusal yields Err and releases what was built.
+CompForms == { [f |-> "KeyPair::new_locked_keypair",                  lens |-> <<32, 32>>],
+               [f |-> "KeyPair::gen_locked_keypair",                  lens |-> <<32, 32>>],
+               [f |-> "KeyPair::gen_readonly_locked_keypair",         lens |-> <<32, 32>>],
+               [f |-> "SigningKeyPair::new_locked_keypair",           lens |-> <<32, 64>>],
+               [f |-> "SigningKeyPair::gen_locked_keypair",           lens |-> <<32, 64>>],
+               [f |-> "SigningKeyPair::gen_readonly_locked_keypair",  lens |-> <<32, 64>>],
+               [f |-> "PrecalcSecretKey::precalculate_locked",        lens |-> <<32>>],
+               [f |-> "PrecalcSecretKey::precalculate_readonly_locked", lens |-> <<32>>] }
+
+Composite(cf) ==
+  /\ Step(<<"composite", 0, cf.f>>)
+  /\ Len(allocs) + Len(cf.lens) <= MaxAllocs
+  /\ LET n == Len(cf.lens)
+         k == IF budget = 99 \/ budget >= n THEN n ELSE budget          \* lock requests granted
+         m == IF k = n THEN n ELSE k + 1                                 \* allocations made before the refusal surfaced
+         base == Len(allocs)
+         dead(len) == [cap |-> VecCap(0, len), pages |-> [i \in 1..Len(MkPages(VecCap(0, len))) |-> Clean], live |-> FALSE]
+         \* on success the fields are dropped in declaration order; on refusal the failing region goes first
+         order == IF k = n THEN [i \in 1..m |-> i] ELSE <<m>> \o [i \in 1..(m - 1) |-> i]
+     IN /\ res' = IF k = n THEN "Ok" ELSE "Err"
+        /\ allocs' = allocs \o [i \in 1..m |-> dead(cf.lens[i])]
+        /\ released' = released \o [i \in 1..m |-> Rel(base + order[i], VecCap(0, cf.lens[order[i]]))]
+        /\ budget' = IF budget = 99 THEN 99 ELSE budget - k
+        /\ UNCHANGED regs
+
 \* read the bytes through a shared view (as_slice / Deref / index / as_array)
 ReadView(h) ==
   /\ Step(<<"view", h>>)
@@ -264,6 +293,7 @@ Next == \/ \E h \in Handles, fm \in Forms, k \in {"Fixed", "Resizable"}, l \in L
         \/ \E h \in Handles, pm \in {"RW", "RO", "NA"} : Protect(h, pm)
         \/ \E h, g \in Handles : Clone(h, g)
         \/ \E h \in Handles, l \in Lens : Resize(h, l)
+        \/ \E cf \in CompForms : Composite(cf)
 
 Spec == Init /\ [][Next]_vars
 
@@ -309,7 +339,7 @@ CloneCopies ==
                                                 /\ regs'[lastop'[2]] = regs[lastop'[2]])]_vars
 
 \* C19: a refused lock is an error for every Result-returning operation, and it disturbs no other region
-ResultOps == {"ctor", "heap_mlock", "mlock", "munlock", "mprotect"}
+ResultOps == {"ctor", "heap_mlock", "mlock", "munlock", "mprotect", "composite"}
 RefusalIsError ==
   [][/\ (lastop'[1] \in ResultOps => res' \in {"Ok", "Err"})
      /\ (res' \in {"Err", "Panic"} =>
